@@ -71,7 +71,7 @@ VARIANTS = {
     # every candidate a user would get from `--auto dir/*`
     'B': ['P_aa.gro', 'P_aa.itp', 'P_cg.itp', 'P_one_cg.gro', 'Q_aa.gro', 'Q_aa.itp', 'Q_cg.itp',
           'R_aa.gro', 'R_aa.itp', 'R_cg.itp', 'T_cg.itp', 'X_aa.gro', 'X_aa.itp', 'X_cg.itp', 'Z_cg.itp',
-          'bad.gro', 'notes.txt', 'sys.gro'],
+          'bad.gro', 'notes.txt', 'sys.gro', 'P_old.Itp', 'Q_backup.Gro'],
     # six files: one species, an orphan coordinate file, the start-only species, a malformed file
     'S': ['P_aa.gro', 'P_aa.itp', 'P_cg.itp', 'Q_aa.gro', 'T_cg.itp', 'bad.gro'],
 }
@@ -133,6 +133,9 @@ def write_directory(d, seed, bad='count_too_big'):
                                  title='one start-resolution molecule'))
     put('bad.gro', BAD_KINDS[bad])
     put('notes.txt', 'PMOL QMOL RMOL: see P_cg.itp P_aa.itp P_aa.gro\n')
+    # extensions in a spelling no parser is registered for: not candidates at all
+    put('P_old.Itp', itp_text('PMOL', DSPEC['P'][1], _chain(len(DSPEC['P'][1]))))
+    put('Q_backup.Gro', 'old\n    1\n    1QRS     D1    1   0.100   0.200   0.300\n' + _BOXL)
     return os.path.join(d, 'sys.gro')
 
 
@@ -398,6 +401,9 @@ class C20(Check):
                     for k in ([0, 1] if thorough else [0]):
                         u.append({'k': 'diff', 'cases': [{'k': 'diff', 'species': list(sp), 'scale': sc,
                                                          'out': o, 'npseed': k}]})
+        for sp in (['BMIM', 'BF4'], ['BF4']):
+            u.append({'k': 'diff', 'cases': [{'k': 'diff', 'species': list(sp), 'scale': None, 'out': 'given',
+                                             'npseed': 0, 'renamed_end': 1}]})
         # (b) iteration orders
         for variant in ('B', 'S'):
             sp = VARIANT_SPECIES[variant]
@@ -482,9 +488,22 @@ class C20(Check):
                 shutil.copy(os.path.join(REPO, 'gaddlemaps', 'data', f), d)
             rel = case['out'] == 'default_cwd'
             p = (lambda f: f) if rel else (lambda f: os.path.join(d, f))
+            triples = {k: list(v) for k, v in TRIPLE_A.items()}
+            if case.get('renamed_end'):
+                # explicit triples need not carry the same molecule name in both topologies (only --auto does)
+                with open(os.path.join(d, 'BF4_AA.itp')) as fh:
+                    txt = fh.read()
+                lines = txt.split('\n')
+                at = next(i for i, ln in enumerate(lines) if 'moleculetype' in ln)
+                at = next(i for i in range(at + 1, len(lines)) if lines[i].strip() and not lines[i].lstrip().startswith(';'))
+                assert 'BF4' in lines[at]
+                lines[at] = lines[at].replace('BF4', 'TFB')          # the molecule NAME only, not the residue names
+                with open(os.path.join(d, 'TFB_AA.itp'), 'w') as fh:
+                    fh.write('\n'.join(lines))
+                triples['BF4'][2] = 'TFB_AA.itp'
             argv = ['gaddlemaps', p(SYS_A)]
             for s in case['species']:
-                argv += ['--mol'] + [p(f) for f in TRIPLE_A[s]]
+                argv += ['--mol'] + [p(f) for f in triples[s]]
             if case['scale'] is not None:
                 argv += ['--scale', repr(case['scale'])]
             workdir = None
@@ -536,9 +555,13 @@ class C20(Check):
             lib_out = os.path.join(top, 'lib_out.gro')
             np.random.seed(case['npseed'])
             with patched(Alignment, 'STEPS_FACTOR', STEPS), quiet_stdout():
-                man = Manager.from_files(q(SYS_A), *[q(TRIPLE_A[s][0]) for s in case['species']])
-                man.add_end_molecules(*[Molecule.from_files(q(TRIPLE_A[s][1]), q(TRIPLE_A[s][2]))
-                                        for s in case['species']])
+                man = Manager.from_files(q(SYS_A), *[q(triples[s][0]) for s in case['species']])
+                if case.get('renamed_end'):
+                    for s in case['species']:          # attached to the species named by the START topology
+                        man.molecule_correspondence[s].end = Molecule.from_files(q(triples[s][1]), q(triples[s][2]))
+                else:
+                    man.add_end_molecules(*[Molecule.from_files(q(triples[s][1]), q(triples[s][2]))
+                                            for s in case['species']])
                 man.align_molecules()
                 if case['scale'] is None:
                     man.calculate_exchange_maps()
